@@ -206,6 +206,15 @@ def work(item):
         enc = build_code(s)
     except (ValueError, AssertionError, RuntimeError, IndexError):
         return []
+    if item.get("after"):
+        # call history: another object with the same generator polynomial but a different length was queried first
+        try:
+            first = build_code(item["after"])
+            first.minimum_distance()
+            enc = build_code(s)          # built after the first query, as a user session would
+        except (ValueError, AssertionError, RuntimeError, IndexError):
+            return []
+        config = config + " after " + cfg(item["after"]) + ".minimum_distance()"
     if item.get("selftest") == "ext-column":
         # mutant: extension column all ones instead of overall parity -> d = 3 for extended Hamming
         enc._parity_submatrix_buffer[:, -1] = 1.0
@@ -232,6 +241,11 @@ def main():
     specs = code_specs(["hamming", "repetition", "spc", "rm", "cyclic", "bch", "golay", "rs"])
     items = [{"spec": s, "config": cfg(s), "stretch": bool(s.get("stretch"))} for s in specs]
     items.append({"spec": spec("HammingCodeEncoder", mu=3, extended=True), "config": "selftest", "selftest": "ext-column"})
+    # advertised values must not depend on which other code objects were queried before (same g(X), different length)
+    for g, n1, n2 in ((0b111, 3, 6), (0b111, 9, 3), (0b1011, 7, 14), (0b1011, 14, 7), (0b11111, 5, 10), (0b11, 4, 6)):
+        a = spec("CyclicCodeEncoder", code_length=n1, generator_polynomial=g)
+        b = spec("CyclicCodeEncoder", code_length=n2, generator_polynomial=g)
+        items.append({"spec": b, "after": a, "config": cfg(b) + " after " + cfg(a)})
     from kaira.models.fec.encoders import cyclic_code, bch_code, hamming_code, golay_code, reed_muller_code, reed_solomon_code, systematic_linear_block_code as SL, linear_block_code as L
     ck.encoded(L.LinearBlockCodeEncoder.forward, SL.SystematicLinearBlockCodeEncoder.forward, cyclic_code.CyclicCodeEncoder._generate_systematic_matrix,
                cyclic_code.CyclicCodeEncoder.minimum_distance, bch_code.compute_bch_generator_polynomial, hamming_code.create_hamming_parity_submatrix,
